@@ -6,9 +6,11 @@ package fullstack
 import (
 	"context"
 	"fmt"
+	"io"
 	"os"
 	"path/filepath"
 	"sync"
+	"sync/atomic"
 	"time"
 
 	"github.com/containerd/containerd/v2/pkg/reference"
@@ -77,10 +79,41 @@ type Stack struct {
 	TaskMgr  *task.BackgroundTaskManager
 	Ref      reference.Spec
 
-	DB       *bolt.DB // metadata DB (db store only)
+	DB *bolt.DB // metadata DB (db store only)
 
 	mu   sync.Mutex
 	exts map[digest.Digest][]byte // external TOCs by layer digest
+
+	// gate, when armed with ArmTOCDigestGate, runs once inside the next metadata TOCDigest() call.  The
+	// verification call reads the TOC digest in the middle of taking its decision, so this is a harness-owned
+	// schedule point "another goroutine runs to completion while Verify is in progress".
+	gate atomic.Pointer[func()]
+}
+
+// ArmTOCDigestGate makes the next TOCDigest() call of any metadata reader of this stack run f (once).
+func (s *Stack) ArmTOCDigestGate(f func()) { s.gate.Store(&f) }
+
+// DisarmTOCDigestGate removes an unused gate; it reports whether the gate had fired.
+func (s *Stack) DisarmTOCDigestGate() bool { return s.gate.Swap(nil) == nil }
+
+type gateReader struct {
+	metadata.Reader
+	s *Stack
+}
+
+func (g *gateReader) TOCDigest() digest.Digest {
+	if f := g.s.gate.Swap(nil); f != nil {
+		(*f)()
+	}
+	return g.Reader.TOCDigest()
+}
+
+func (g *gateReader) Clone(sr *io.SectionReader) (metadata.Reader, error) {
+	r, err := g.Reader.Clone(sr)
+	if err != nil {
+		return nil, err
+	}
+	return &gateReader{Reader: r, s: g.s}, nil
 }
 
 // New creates a stack rooted in a fresh temp directory.
@@ -119,6 +152,14 @@ func New(cfg Config) (*Stack, error) {
 		st = stores.DBStore(db)
 	} else {
 		st, _ = stores.Store("memory")
+	}
+	inner := st
+	st = func(sr *io.SectionReader, opts ...metadata.Option) (metadata.Reader, error) {
+		r, err := inner(sr, opts...)
+		if err != nil {
+			return nil, err
+		}
+		return &gateReader{Reader: r, s: s}, nil
 	}
 	opq := layer.OverlayOpaqueTrusted
 	switch cfg.Opaque {
